@@ -49,11 +49,12 @@ func tcLoadFiles(env types.Mapping, names ...string) (map[string]any, error) {
 func VerifC04Reset() {
 	w := vrtRoot() + "/w"
 	v := "x" + vrtString("v", vrtParam("VL", 1), "ab")
-	attr := []string{"command", "environment", "ports", "hostname", "labels"}[vrtChoice("attr", 5)]
+	attr := []string{"command", "environment", "ports", "hostname", "labels", "dotted-label"}[vrtChoice("attr", 6)]
+	svcName := []string{"s", "web.api"}[vrtChoice("serviceName", 2)]
 	tag := []string{"!reset", "!override"}[vrtChoice("tag", 2)]
-	base := map[string]any{"services": map[string]any{"s": map[string]any{
+	base := map[string]any{"services": map[string]any{svcName: map[string]any{
 		"image": "i", "command": []any{"base", v}, "environment": map[string]any{"B": v, "K": "base"}, "ports": []any{"8080:80"},
-		"hostname": "h" + v, "labels": map[string]any{"b": v}, "user": "keep"}}}
+		"hostname": "h" + v, "labels": map[string]any{"b": v, "com.example.x": "dotted"}, "user": "keep"}}}
 	vrtYamlFile(w+"/compose.yaml", base)
 	var val *yaml.Node
 	switch attr {
@@ -67,6 +68,9 @@ func VerifC04Reset() {
 		val = nStr("o" + v)
 	case "labels":
 		val = nMap(nStr("n"), nStr(v))
+	case "dotted-label":
+		// the tag sits on a key that contains dots, below `labels`
+		val = nStr("o" + v)
 	}
 	if tag == "!reset" && attr != "hostname" {
 		// `attr: !reset null` and `attr: !reset [...]` both remove the attribute
@@ -75,7 +79,13 @@ func VerifC04Reset() {
 		}
 	}
 	val.Tag = tag
-	over := nMap(nStr("services"), nMap(nStr("s"), nMap(nStr(attr), val, nStr("working_dir"), nStr("/w"+v))))
+	var body *yaml.Node
+	if attr == "dotted-label" {
+		body = nMap(nStr("labels"), nMap(nStr("com.example.x"), val), nStr("working_dir"), nStr("/w"+v))
+	} else {
+		body = nMap(nStr(attr), val, nStr("working_dir"), nStr("/w"+v))
+	}
+	over := nMap(nStr("services"), nMap(nStr(svcName), body))
 	vrtYamlNodeFile(w+"/override.yaml", over)
 	m, err := tcLoadFiles(nil, w+"/compose.yaml", w+"/override.yaml")
 	vrtObserve("err", err != nil)
@@ -84,10 +94,21 @@ func VerifC04Reset() {
 		vrtObserve("msg", err.Error())
 		return
 	}
-	s := tcSvc(m, "s")
+	s := tcSvc(m, svcName)
 	vrtObserve("attr", s[attr])
 	vrtAssert("unmentioned-preserved", s["user"] == any("keep") && s["image"] == any("i"))
 	vrtAssert("other-override-attribute-applied", s["working_dir"] == any("/w"+v))
+	if attr == "dotted-label" {
+		kv, _ := c04KV(s["labels"])
+		vrtAssert("sibling-label-kept", kv["b"] == v)
+		if tag == "!reset" {
+			_, has := kv["com.example.x"]
+			vrtAssert("reset-removes-dotted-key", !has)
+		} else {
+			vrtAssert("override-replaces-dotted-key", kv["com.example.x"] == "o"+v)
+		}
+		return
+	}
 	if tag == "!reset" {
 		_, has := s[attr]
 		vrtAssert("reset-removes-attribute", !has)
